@@ -26,7 +26,7 @@ func RunFullVolume() []Mismatch {
 		if err != nil {
 			return []Mismatch{{Props: []string{"HARNESS"}, What: err.Error()}}
 		}
-		name := "sink.log"
+		name := baseName
 		if err := os.Symlink("/dev/full", filepath.Join(dir, name)); err != nil {
 			os.RemoveAll(dir)
 			return []Mismatch{{Props: []string{"HARNESS"}, What: err.Error()}}
@@ -95,7 +95,7 @@ func RunDirRemoved() []Mismatch {
 			return []Mismatch{{Props: []string{"HARNESS"}, What: err.Error()}}
 		}
 		dir := filepath.Join(root, "logs", "audit")
-		fs := &eventlogger.FileSink{Path: dir, FileName: "sink.log", MaxBytes: sc.maxBytes, TimestampOnlyOnRotate: sc.toor}
+		fs := &eventlogger.FileSink{Path: dir, FileName: baseName, MaxBytes: sc.maxBytes, TimestampOnlyOnRotate: sc.toor}
 		write := func(id int) error {
 			e := &eventlogger.Event{Type: "t", Formatted: map[string][]byte{}}
 			e.FormattedAs(eventlogger.JSONFormat, Token(id, 24))
@@ -152,7 +152,7 @@ func RunWriteFault() []Mismatch {
 			return []Mismatch{{Props: []string{"HARNESS"}, What: err.Error()}}
 		}
 		mk := func() *eventlogger.FileSink {
-			return &eventlogger.FileSink{Path: dir, FileName: "sink.log", TimestampOnlyOnRotate: true}
+			return &eventlogger.FileSink{Path: dir, FileName: baseName, TimestampOnlyOnRotate: true}
 		}
 		fs := mk()
 		var acked []int
@@ -173,7 +173,7 @@ func RunWriteFault() []Mismatch {
 			fs = mk() // a new process appending to the existing log
 		}
 		write(3)
-		st, err := os.Stat(filepath.Join(dir, "sink.log"))
+		st, err := os.Stat(filepath.Join(dir, baseName))
 		if err != nil {
 			os.RemoveAll(dir)
 			continue
